@@ -41,7 +41,7 @@ type request struct {
 	direct bool
 	feat   map[string]bool
 	used   map[string]bool
-	bucket string // systematic cases: het:<fn>/<param>:<v|k>:<A>><B> or ret:<fn>:<kind>
+	bucket string // systematic cases: het:<fn>/<param>:first=<kA>,<vA> or ret:<fn>:<kind>
 }
 
 type caseSpec struct {
@@ -586,7 +586,7 @@ func runCase(c *hx.Ctx) {
 	}
 }
 
-const quickRandom, thoroughRandom = 1100, 11000 // random cases after the systematic ones
+const quickRandom, thoroughRandom = 1000, 11000 // random cases after the systematic ones
 
 func main() {
 	if ServeIfWorker(serve) {
@@ -645,7 +645,7 @@ func main() {
 	}
 	hx.Main(hx.Family{
 		Name: "c23",
-		Rule: "the first 1704 cases are systematic (het.go): every collection-typed parameter of every table function x every ordered pair (A,B) of item kinds int/float/string/feature-id/pair/nil gets a collection whose first items are of kind A and later items of kind B, twice as values and once as keys, literal or built with collection(pair..) (buckets het:<fn>/<param>:<v|k>:<A>><B>), and every function-typed parameter gets a lambda returning each of 11 kinds or failing (buckets ret:<fn>:<kind>), other arguments well-formed; then random cases: 1-4 requests per case on one service instance (empty world 1/6, OSM town otherwise; 1/3 with a non-empty overlay layer); each request is an expression tree over the whole registered function table (read by reflection): a call of a uniformly chosen function with arguments generated per Go parameter type (literals with edge values: negative/huge ints, NaN/Inf floats, invalid/missing/mistyped feature IDs, empty and degenerate geometries, queries of every constructor, literal collections incl. mixed/duplicate/unhashable entries, 1/4 with first items of one kind and later items of another; calls of any function whose result feeds the type; lambdas, partial applications, function symbols and queries for function types, 1/12 with a wrong arity; 1/30 an argument of a wrong sort; dropped/extra/swapped arguments), collection pipelines, lambda calls (1/6 with more or fewer arguments than parameters), 1/12 programs inside the fragment the Lean model evaluates (add-ints, pairs, nested lambdas, partial applications, ill-typed arguments); 1/12 requests damaged at the wire level (a message field cleared, no request, bad root, bad version). Every request goes through proto.Marshal/Unmarshal and the real grpc service.Evaluate; half also through api.Evaluate with functions.NewContext. non-trivial = a request uses >= 2 library functions or a lambda; distinct = by hash of the case text",
+		Rule: "the first 1704 cases are systematic (het.go): every collection-typed parameter of every table function x every (key kind, value kind) of the first items over int/float/string/feature-id/pair/nil (6x6) gets 12 collections: later items keeping the key kind with each of the 6 value kinds, and keeping the value kind with each of the 6 key kinds, literal or built with collection(pair..) (buckets het:<fn>/<param>:first=<kA>,<vA> and het-change:<v|k>:<A>><B>), and every function-typed parameter gets a lambda returning each of 11 kinds or failing (buckets ret:<fn>:<kind>), other arguments well-formed; then random cases: 1-4 requests per case on one service instance (empty world 1/6, OSM town otherwise; 1/3 with a non-empty overlay layer); each request is an expression tree over the whole registered function table (read by reflection): a call of a uniformly chosen function with arguments generated per Go parameter type (literals with edge values: negative/huge ints, NaN/Inf floats, invalid/missing/mistyped feature IDs, empty and degenerate geometries, queries of every constructor, literal collections incl. mixed/duplicate/unhashable entries, 1/4 with first items of one kind and later items of another; calls of any function whose result feeds the type; lambdas, partial applications, function symbols and queries for function types, 1/12 with a wrong arity; 1/30 an argument of a wrong sort; dropped/extra/swapped arguments), collection pipelines, lambda calls (1/6 with more or fewer arguments than parameters), 1/12 programs inside the fragment the Lean model evaluates (add-ints, pairs, nested lambdas, partial applications, ill-typed arguments); 1/12 requests damaged at the wire level (a message field cleared, no request, bad root, bad version). Every request goes through proto.Marshal/Unmarshal and the real grpc service.Evaluate; half also through api.Evaluate with functions.NewContext. non-trivial = a request uses >= 2 library functions or a lambda; distinct = by hash of the case text",
 		Quick:    quickCases,
 		Thorough: thoroughCases,
 		Corpus: func(c *hx.Ctx) {
